@@ -186,6 +186,13 @@ def rule_puncture_target(ctx: Ctx) -> None:
     if len(snd) != 1:
         return
     tvar = arg(snd[0], 0)
+    cfgp = ctx.cfg(fi)
+    sn_ = cfgp.nodes_for(snd[0])
+    ok = cfgp.exit not in cfgp.reach(cut_nodes=sn_, follow_exc=False)
+    ctx.check(ok, "puncture-target", fi, snd[0], "every normal path of on_puncture_request sends the puncture",
+              "on_puncture_request can return without sending the puncture: the requester's next contact attempt is dropped by the introduced peer's NAT")
+    if not ok:
+        return
     # evaluate the function as a table over S = same public IP
     def atom_of(e):
         t = norm(e)
@@ -225,7 +232,28 @@ def rule_puncture_target(ctx: Ctx) -> None:
         ctx.check(ok, "puncture-target", f2, f2.node, f"{name} forwards to on_puncture_request unchanged", f"{name} does not forward the request unchanged")
 
 
+def rule_introduction_recorded(ctx: Ctx) -> None:
+    """discover_address (re)records an introduced address whenever it is unknown or its recorded introducer is not a verified key."""
+    da = ctx.repo.method("Network", "discover_address", "ipv8/peerdiscovery/network.py")
+    addr = da.params()[2]
+    sts = [s for s, t in stores(da, "self._all_addresses[]")]
+    ctx.anchor(sts, "_all_addresses[address] = ... in discover_address")
+    st = sts[0]
+    iff = next((a for a in ancestors(st) if isinstance(a, ast.If)), None)
+    atoms = set()
+    if iff is not None and isinstance(iff.test, ast.BoolOp) and isinstance(iff.test.op, ast.Or):
+        atoms = {norm(v) for v in iff.test.values}
+    want = {f"{addr} not in self._all_addresses", f"self._all_addresses[{addr}].introduced_by not in self.verified_by_public_key_bin"}
+    ctx.check(atoms == want, "introduction-recorded", da, iff or st, "an introduced address is (re)recorded iff it is unknown or its introducer is no verified key",
+              f"discover_address records the introduction under the condition {sorted(atoms)} instead of {sorted(want)}: an address known without a live introducer "
+              "(e.g. from a snapshot) keeps service=None and is never offered as walkable for the overlay")
+    v = st.value
+    ok = isinstance(v, ast.Call) and chain(v.func) == "WalkableAddress" and [norm(a) for a in v.args] == [f"{da.params()[1]}.public_key.key_to_bin()", da.params()[3], da.params()[4]]
+    ctx.check(ok, "introduction-recorded", da, st, "record = (introducer key, service, new_style)", "the recorded introduction loses the introducer/service/new_style")
+
+
 def run(ctx: Ctx) -> None:
+    rule_introduction_recorded(ctx)
     rule_puncture_accompanies(ctx)
     rule_requester_selection(ctx)
     rule_puncture_target(ctx)
